@@ -2,6 +2,7 @@ package main
 
 import (
 	"fmt"
+	"strings"
 
 	"verif/harness/internal/h"
 )
@@ -27,6 +28,15 @@ func corpus(r *h.Run) {
 		}}
 		runSeq(r, sc, false)
 	}
+	// fault-free life cycle in every environment: remote path / key containing ".part", FilesystemItemsToIgnore set, dirty
+	// destinations, versions with and without files that match the ignore list
+	for _, kind := range []string{"mutable", "immutable"} {
+		for _, env := range []envSpec{{}, {Ignore: defaultIgnore}, {Layout: "part"}, {Layout: "part", Ignore: defaultIgnore}} {
+			runSeq(r, seqScenario{Type: "seq", Kind: kind, Env: env, Versions: specsFor(3, 4, 0), Ops: []opSpec{
+				{Op: "store", Ver: 1}, {Op: "fetch"}, {Op: "store", Ver: 2}, {Op: "fetch"}, {Op: "clean"}, {Op: "fetch"},
+				{Op: "store", Ver: 3}, {Op: "fetch"}, {Op: "store", Ver: 0}, {Op: "clean"}, {Op: "fetch"}}}, true)
+		}
+	}
 	// D15: a client that times out on the entry lock must not release the holder's lock
 	runGated(r, d15Witness())
 }
@@ -36,7 +46,8 @@ func seqTail(next int) []opSpec {
 }
 
 func sweepSeq(r *h.Run) {
-	faultKinds := []string{"err", "short", "crash", "crashshort"}
+	faultKinds := []string{"err", "short", "crash", "crashshort", "shortnil", "silent"}
+	group := 0
 	for _, kind := range []string{"mutable", "immutable"} {
 		for nh := 0; nh <= 2; nh++ {
 			var hist []opSpec
@@ -49,8 +60,10 @@ func sweepSeq(r *h.Run) {
 					continue
 				}
 				top := opSpec{Op: target, Ver: nh}
+				env := envFor(group)
+				group++
 				// clean run: number of operations of the target call
-				base := seqScenario{Type: "seq", Kind: kind, Versions: specs, Ops: append(append([]opSpec{}, hist...), top)}
+				base := seqScenario{Type: "seq", Kind: kind, Env: env, Versions: specs, Ops: append(append([]opSpec{}, hist...), top)}
 				obs := runSeq(r, base, true)
 				n := obs[len(obs)-1].NOps
 				r.Count(fmt.Sprintf("ops-per-%s:%s", target, kind))
@@ -58,17 +71,22 @@ func sweepSeq(r *h.Run) {
 					tr := obs[len(obs)-1].trace[k]
 					remote := isRemote(tr.Path)
 					for fi, fk := range faultKinds {
-						if (fk == "short" || fk == "crashshort") && tr.Name != "f.Write" {
+						if (fk == "short" || fk == "crashshort" || fk == "shortnil" || fk == "silent") && tr.Name != "f.Write" {
 							continue
 						}
-						// quick tier: every operation on the remote entry; a seeded third of the purely local ones
-						if !remote && !r.Thorough() && !r.Deep && (k+fi+int(r.Seed))%3 != 0 {
+						// silent corruption: only where the hash-verified transfer is in charge (upload to the entry, download to
+						// the temporary copy); a lying LOCAL disk under the zip writer or the unpacker is outside any guarantee
+						if fk == "silent" && !(remote || (target == "fetch" && strings.HasPrefix(tr.Path, "/tmp/"))) {
+							continue
+						}
+						// quick tier: every operation on the remote entry; a seeded quarter of the purely local ones
+						if !remote && !r.Thorough() && !r.Deep && (k+fi+int(r.Seed))%4 != 0 {
 							continue
 						}
 						f := &faultSpec{K: k, Kind: fk}
 						ops := append(append([]opSpec{}, hist...), opSpec{Op: target, Ver: nh, Fault: f})
 						ops = append(ops, seqTail(nh+1)...)
-						sc := seqScenario{Type: "seq", Kind: kind, Versions: specs, Ops: ops}
+						sc := seqScenario{Type: "seq", Kind: kind, Env: env, Versions: specs, Ops: ops}
 						o := runSeq(r, sc, true)
 						r.Distinct(fmt.Sprintf("%s|%d|%s|%s|%s|%s", kind, nh, target, tr.Name, pathClass(tr.Path), fk))
 						if k%17 == 0 && len(o) > nh+5 {
@@ -81,7 +99,7 @@ func sweepSeq(r *h.Run) {
 					// the acquisition itself fails
 					ops := append(append([]opSpec{}, hist...), opSpec{Op: target, Ver: nh, Fault: &faultSpec{LockOp: "Mkdir"}})
 					ops = append(ops, seqTail(nh+1)...)
-					runSeq(r, seqScenario{Type: "seq", Kind: kind, Versions: specs, Ops: ops}, false)
+					runSeq(r, seqScenario{Type: "seq", Kind: kind, Env: env, Versions: specs, Ops: ops}, false)
 				}
 			}
 		}
